@@ -4,7 +4,7 @@ import ast
 
 from .. import AnalysisError
 from ..cfg import ALL_KINDS, NORMAL_KINDS, iter_own
-from ..lib import attr_stores, dominated_by, guard_forms, key_of, norm, render, type_is
+from ..lib import attr_stores, both_orders, dominated_by, guard_forms, key_of, norm, render, type_is
 from ..report import describe, rule
 from .common import expand_cmd, spawn_sites
 
@@ -124,7 +124,7 @@ def c15_3(ctx, r):
     # the mismatch branch raises
     for n in cfg.nodes:
         for d, k, c in n.succ:
-            if k in ("T", "F") and c is not None and norm(ctx, fn, c, n, pol=(k == "T")) == (want, False):
+            if k in ("T", "F") and c is not None and (want, False) in both_orders([norm(ctx, fn, c, n, pol=(k == "T"))]):
                 seen, stack = set(), [d]
                 while stack:
                     x = stack.pop()
